@@ -85,3 +85,96 @@ Proof.
   rewrite mload_mstore by lia. rewrite mread_mstore_after.
   rewrite mread_rdcopy_prefix by lia. apply truncate_min. lia.
 Qed.
+
+(* ---------------- the use-sites compute the documented behaviour ---------------- *)
+Definition ptr_ok (p : Z) := 0 <= p /\ p + 32 < WW.
+
+Lemma sel_min : forall M n, (if b2z (M <? n) =? 0 then n else M) = Z.min M n.
+Proof. intros. destruct (Z.ltb_spec M n); simpl; lia. Qed.
+Lemma lt_self_plus : forall n, (n <? 0 + n) = false.
+Proof. intros. apply Z.ltb_ge. lia. Qed.
+Lemma log2_lt256 : forall a, 0 <= a < 2 ^ 256 -> Z.log2 a < 256.
+Proof. intros a H. destruct (Z.eq_dec a 0) as [->|N]; [reflexivity|]. apply Z.log2_lt_pow2; lia. Qed.
+Lemma lxor_bound : forall a b, 0 <= a < 2 ^ 256 -> 0 <= b < 2 ^ 256 -> 0 <= Z.lxor a b < 2 ^ 256.
+Proof.
+  intros a b Ha Hb. assert (H0 : 0 <= Z.lxor a b) by (apply Z.lxor_nonneg; lia). split; [exact H0|].
+  destruct (Z.eq_dec (Z.lxor a b) 0) as [E|N]; [rewrite E; reflexivity|].
+  apply Z.log2_lt_pow2; [lia|].
+  eapply Z.le_lt_trans; [apply Z.log2_lxor; lia|].
+  apply Z.max_lub_lt; apply log2_lt256; assumption.
+Qed.
+Lemma cap_xor : forall M n, 0 <= M < WW -> 0 <= n -> Z.lxor M ((b2z (n <? M) * Z.lxor n M) mod WW) = Z.min M n.
+Proof.
+  intros M n HM Hn. destruct (Z.ltb_spec n M); simpl b2z.
+  - rewrite Z.mul_1_l. rewrite Z.mod_small by (apply lxor_bound; unfold WW in *; lia).
+    rewrite (Z.lxor_comm n M), <- Z.lxor_assoc, Z.lxor_nilpotent, Z.lxor_0_l. lia.
+  - rewrite Z.mul_0_l, Z.mod_0_l by (unfold WW; lia). rewrite Z.lxor_0_r. lia.
+Qed.
+
+Lemma eqb10 : (1 =? 0) = false. Proof. reflexivity. Qed.
+Lemma eqb00 : (0 =? 0) = true. Proof. reflexivity. Qed.
+Ltac ev_cbn := cbn -[Z.eqb Z.ltb Z.leb rdcopy mread blen mload mstore exec_call Z.min WW Z.modulo Z.add truncate bytes_at Z.lxor Z.mul].
+Ltac fin y buf :=
+  rewrite ?(Z.mod_small (y_data y + 32) WW), ?(Z.mod_small (buf + 32) WW) by lia;
+  unfold bytes_at;
+  match goal with |- context [exec_call ?w ?c ?k ?t ?v ?d] => let o := fresh "o" in set (o := exec_call w c k t v d); destruct (o_ok o) end; ev_cbn; rewrite ?eqb10, ?eqb00; ev_cbn; rewrite ?eqb10, ?eqb00; ev_cbn;
+  rewrite ?lt_self_plus, ?sel_min; ev_cbn;
+  rewrite ?mread_rdcopy.
+
+Lemma rawcall_legacy_pos : forall k M R hg (hv : bool) c cr y s buf,
+  0 < M < WW -> ptr_ok (y_data y) -> ptr_ok buf ->
+  observe M R (ev_top (mkG c cr (symtab y)) (gen_rawcall_legacy k M R hg (if hv then sym "value_sym" else SL 0) buf) s)
+  = raw_call_w k M R c (y_to y) (match k with KCall => if hv then y_value y else 0 | _ => 0 end) (bytes_at (s_mem s) (y_data y)) (s_world s).
+Proof.
+  intros k M R hg hv c cr y s buf HM [Hd1 Hd2] [Hb1 Hb2].
+  unfold gen_rawcall_legacy. destruct (Z.eqb_spec M 0) as [E|_]; [lia|].
+  assert (HM' : (0 <? M) = true) by (apply Z.ltb_lt; lia).
+  destruct k, R, hg, hv; unfold ev_top, ev1, sym, propagate, call_node, raw_call_w; ev_cbn; fin y buf.
+  all: unfold observe; rewrite ?HM'; f_equal; try (apply response_read; lia).
+Qed.
+
+Lemma rawcall_legacy_zero : forall k R hg (hv : bool) c cr y s buf,
+  ptr_ok (y_data y) ->
+  observe 0 R (ev_top (mkG c cr (symtab y)) (gen_rawcall_legacy k 0 R hg (if hv then sym "value_sym" else SL 0) buf) s)
+  = raw_call_w k 0 R c (y_to y) (match k with KCall => if hv then y_value y else 0 | _ => 0 end) (bytes_at (s_mem s) (y_data y)) (s_world s).
+Proof.
+  intros k R hg hv c cr y s buf [Hd1 Hd2].
+  unfold gen_rawcall_legacy. change (0 =? 0) with true. cbv iota.
+  destruct k, R, hg, hv; unfold ev_top, ev1, sym, propagate, call_node, raw_call_w; ev_cbn; fin y buf.
+  all: unfold observe; cbn [Z.ltb Z.compare]; f_equal.
+Qed.
+
+Ltac site_step :=
+  match goal with |- context [run_site (gen_site ?k ?op) ?E ?m] =>
+    let HS := fresh "HS" in
+    pose proof (gen_site_spec k op E m) as HS; unfold site_spec in HS; cbn [e_res e_rd] in HS;
+    rewrite ?eqb10, ?eqb00 in HS; rewrite HS; clear HS end.
+Ltac ev_cbn2 := cbn -[Z.eqb Z.ltb Z.leb rdcopy mread blen mload mstore exec_call Z.min WW Z.modulo Z.add truncate bytes_at Z.lxor Z.mul run_site gen_site].
+Ltac finv y :=
+  rewrite ?(Z.mod_small (y_data y + 32) WW), ?(Z.mod_small (y_out y + 32) WW) by lia;
+  unfold bytes_at;
+  match goal with |- context [exec_call ?w ?c ?k ?t ?v ?d] => let o := fresh "o" in set (o := exec_call w c k t v d); destruct (o_ok o) end;
+  cbn [b2z]; try site_step; ev_cbn2; rewrite ?cap_xor by (unfold blen; lia); ev_cbn2.
+
+Lemma rawcall_venom_pos : forall k M R (hg : bool) glit vlit c cr y s fp tg,
+  0 < M < WW -> ptr_ok (y_data y) -> ptr_ok (y_out y) ->
+  observe M R (run_vsite (mkG c cr (symtab y)) (gen_rawcall_venom k M R (if hg then SL glit else sym "gas") (SL vlit)) fp tg s)
+  = raw_call_w k M R c (y_to y) (match k with KCall => vlit | _ => 0 end) (bytes_at (s_mem s) (y_data y)) (s_world s).
+Proof.
+  intros k M R hg glit vlit c cr y s fp tg HM [Hd1 Hd2] [Hb1 Hb2].
+  unfold gen_rawcall_venom. destruct (Z.eqb_spec M 0) as [E|_]; [lia|].
+  assert (HM' : (0 <? M) = true) by (apply Z.ltb_lt; lia).
+  destruct k, R, hg; unfold run_vsite, cap_tree, sym, raw_call_w, kind_op; ev_cbn2; finv y.
+  all: unfold observe; rewrite ?HM'; f_equal; try (apply response_read; lia).
+Qed.
+
+Lemma rawcall_venom_zero : forall k R (hg : bool) glit vlit c cr y s fp tg,
+  ptr_ok (y_data y) ->
+  observe 0 R (run_vsite (mkG c cr (symtab y)) (gen_rawcall_venom k 0 R (if hg then SL glit else sym "gas") (SL vlit)) fp tg s)
+  = raw_call_w k 0 R c (y_to y) (match k with KCall => vlit | _ => 0 end) (bytes_at (s_mem s) (y_data y)) (s_world s).
+Proof.
+  intros k R hg glit vlit c cr y s fp tg [Hd1 Hd2].
+  unfold gen_rawcall_venom. change (0 =? 0) with true. cbv iota.
+  destruct k, R, hg; unfold run_vsite, sym, raw_call_w, kind_op; ev_cbn2; finv y.
+  all: unfold observe; cbn [Z.ltb Z.compare]; f_equal.
+Qed.
